@@ -145,7 +145,7 @@ fn gen_wspec(r: &mut Rng, depth: usize) -> WSpec {
     if depth == 0 || r.chance(1, 3) {
         return match r.below(6) {
             0 => WSpec::Vec(r.below(4), r.below(3) * 7),
-            1 => WSpec::BM(r.below(3), r.below(5), r.below(3) * 9),
+            1 => WSpec::BM(r.below(4), r.below(5), r.below(3) * 9),
             2 | 3 => WSpec::Slice(r.below(40)),
             _ => WSpec::Uninit(r.below(40)),
         };
@@ -312,7 +312,8 @@ pub fn run_case(o: &mut Obs, spec: &WSpec, ops: &[WOp], path: usize, use_writer:
                     }),
                     _ => catch(|| BufMut::put_bytes(&mut root, *v, *n)),
                 };
-                (vec![*v; (*n).min(1 << 20)], r)
+                // a request that cannot fit is never appended to the model: no need to materialise it
+                (if *n > (1 << 20) { Vec::new() } else { vec![*v; *n] }, r)
             }
             WOp::Typed(ri, v, nb) => {
                 let row = &rows[*ri];
